@@ -28,7 +28,7 @@ P = {
          "the two spellings of the universal set): == is an equivalence on canonical values, equal objects have equal hash keys, and equal operands give equal results for every operator and side. "
          "Marker part: C13m_refl/sym/trans (marker == is an equivalence; grouped ==/!= atoms compare their values as sets), C13m_same_meaning, C13m_interchangeable (==-equal operands give & / | results with the same meaning, either side) over Model/Marker.v; "
          "Marker hashes (Props/C13h.v over Model/MarkerHash.v = CPython 3.12's tuple hash, collections.abc.Set._hash and the dataclass hash of every marker class, written out over Z with the 64-bit wrap explicit; the string hash is a parameter, so every PYTHONHASHSEED): "
-         "C13h_hash (==-equal markers whose grouped value lists hold no value twice have equal hashes), C13h_set_order (Set._hash is independent of iteration order), C13h_reach_nodup / C13h_hash_reachable (the side condition holds of everything built from atoms by &, |, MultiMarker.of, MarkerUnion.of, "
+         "C13h_hash (==-equal markers whose grouped value lists hold no value twice have equal hashes), C13h_set_order (Set._hash is independent of iteration order), C13h_reach_nodup / C13h_hash_reachable (the side condition holds of everything built from atoms by &, |, MultiMarker.of, MarkerUnion.of, only(), exclude(), "
          "so ==-equal results of the algebra hash alike), C13h_dup_refuted (the side condition is needed). Objects differing only in attached caches: direct oracle only.",
          TB_PROOF + "; hash() of specifiers is modelled as a function of the generated hash key (S-gen compares key equality with observed hash equality); marker part: Props/C13m.v over the hand model Model/Marker.v (tied by S-mark); marker hashes: Model/MarkerHash.v is a hand transcription of CPython's tuple hash and Set._hash, "
          "tied by the stream S-mhash (mhash under the string hashes observed in the running interpreter = hash(m); marker_eqb = ==; the no-duplicate side condition on every observed marker); hypothesis of C13h_reach_nodup: a merged version atom satisfies the side condition (it is an atom, Any or Empty: checked on every row)",
